@@ -9,6 +9,7 @@ mod c01;
 mod c02;
 mod c11;
 mod c15;
+mod c19;
 mod registry;
 
 fn main() {
@@ -19,6 +20,7 @@ fn main() {
         "C01" => (c01::items(&args), c01::RULE),
         "C02" => (c02::items(&args), c02::RULE),
         "C11" => (c11::items(&args), c11::RULE),
+        "C19" => (c19::items(&args), c19::RULE),
         p => panic!("mon_ff does not serve property {p}"),
     };
     let rep = run_items(&args, items);
